@@ -27,7 +27,7 @@ CHECKS['C04'] = dict(
     text='Panic-freedom of the translator+VM kernels named in the evidence, within bounds: one-statement programs whose i64/f64/string leaves are symbolic '
          '(all arithmetic, comparison and cast operators, ranges with a bounded trip count, symbolic list indices, format templates of up to 3/4 symbolic bytes with '
          '0..2 arguments). Every MIR assert (overflow, division, bounds), unwrap and panic! on the path is a reachability query for z3, which returns the operands '
-         '(i64::MIN / -1, ranges ending at i64::MAX, "@@" % (1)) no sampled test contains. Second family: 1..2/3 fully symbolic ASCII bytes (0x01..0x7f) spliced into 11 contexts (empty file, after `let a =`, inside a list, a string, a tuple field name, a parameter list, a selector, a float fraction, a format template, ...) through the real tokenizer, parser and, where the text parses, FileBuilder::eval_stmts: every panic site reachable for some byte values is a counterexample. Third family (bounded execution, no solver): the real parser's MIR step count for nesting depth 1..5/7 of lists, tuples, parentheses, call arguments and select arms must grow linearly — a stand-in for termination, which symbolic execution cannot decide; it found (and now guards) an exponential grammar. General termination and stack depth are not claimed.',
+         '(i64::MIN / -1, ranges ending at i64::MAX, "@@" % (1)) no sampled test contains. Second family: 1..2/3 fully symbolic ASCII bytes (0x01..0x7f) spliced into 11 contexts (empty file, after `let a =`, inside a list, a string, a tuple field name, a parameter list, a selector, a float fraction, a format template, ...) through the real tokenizer, parser and, where the text parses, FileBuilder::eval_stmts: every panic site reachable for some byte values is a counterexample. Third family (bounded execution, no solver): the real parser\'s MIR step count for nesting depth 1..5/7 of lists, tuples, parentheses, call arguments and select arms must grow linearly — a stand-in for termination, which symbolic execution cannot decide; it found (and now guards) an exponential grammar. General termination and stack depth are not claimed.',
     design_ref='DESIGN.md 4/C04',
     note='Trusted: MIR = code (dev profile, overflow checks on); std builtins. Outside: non-termination, stack exhaustion, arbitrary 4 KiB text, token mutations of corpus files, exit status.',
     technique='symbolic execution of rustc MIR with z3 reachability queries on every panic site (bounded: statement shape, trip counts, template length)')
